@@ -267,23 +267,30 @@ CHECKS["C11"] = {
 }
 
 CHECKS["C16"] = {
-  "text": "Theorems for all byte strings about the index/slice/arithmetic model of the data-dependent panic sites: is_boundary panics "
-          "exactly outside a stated precondition that every non-empty regex match satisfies; the tokenizer's index arithmetic stays in "
-          "range; apply's unchecked slice panics exactly when the recorded offsets do not address a str slice and never on a "
-          "consistent plan; the line_after slice is safe on valid UTF-8 lines; the case-insensitive replacement is total on ASCII; "
-          "lock age underflows iff the timestamp is in the future; the exit-status table of main.rs stays within {0,1,2,3,130}. "
-          "Every potentially panicking site of the non-test code (clippy inventory, regenerated each run) must be classified "
-          "(theorem / infallible / known finding / unreachable / unclassified-counted); panic/no-panic of the real functions is "
-          "compared with the model in-process; a CLI stream of hostile trees, names, terms, option sets, stale plans and workspace "
-          "state checks status, stderr and termination, matching any crash to a listed finding by panic location and input class.",
+  "text": "Theorems for all inputs about the index/slice/arithmetic model of the data-dependent panic sites, stated about the code "
+          "AS THE SOURCE HAS IT NOW: a translator extracts, per formerly panicking site, whether the repaired shape (`.get(..)`, "
+          "`saturating_sub`, the empty-variant skip, the empty-pattern rejection, the ASCII guard, ...) is present "
+          "(Gen.PanicGuards) and the model selects the checked or the old function accordingly. Proved (C16_full_holds): the "
+          "variant map has no empty key, so every regex match is non-empty and is_boundary (exact panic condition proved) is safe; "
+          "line_after, the resolver prefix, the diff/colour renderers slice safely for every line and column; "
+          "replace_case_insensitive terminates without panic for every lower-casing, text and pattern; apply never panics for any "
+          "content and edit list (stale, overlapping, out of range); lock age, the upper-case run check, the literal search loop, "
+          "the JSON plan value and the acronym trie walk are total; the tokenizer's index arithmetic stays in range; the exit-status "
+          "table of main.rs stays within {0,1,2,3,130}. The shapes before the nine fix commits are kept as `...Old` with "
+          "kernel-evaluated before-fix witnesses. Every potentially panicking site of the non-test code (clippy inventory, "
+          "regenerated each run) must be classified; panic/no-panic of the real functions is compared with the model in-process; "
+          "the recorded inputs of the nine repaired defects run first as regression cases; a CLI stream of hostile trees, names, "
+          "terms, option sets, stale plans and workspace state checks status, stderr and termination - any panic, signal, "
+          "undocumented status or non-termination is a violation with the case as replay.",
   "design_ref": "DESIGN.md section 4, C16",
-  "technique": "Lean 4 proof (totality with explicit Panic outcomes) + clippy site inventory x committed classification + differential panic/no-panic correspondence + CLI oracle",
-  "note": TB + "38 inventoried sites are reviewed-as-unclassified (counted in the evidence); allocation failure, stack depth, panics inside "
+  "technique": "Lean 4 proof (totality with explicit Panic outcomes, model follows the source through generated guard flags) + clippy site inventory x committed classification + differential panic/no-panic correspondence + CLI oracle",
+  "note": TB + "40 inventoried sites are reviewed-as-unclassified (counted in the evidence); allocation failure, stack depth, panics inside "
           "dependencies and quadratic cost on very long lines are outside the theorems (the oracle still observes them; an invocation "
-          "that exhausts 40 s / 4 GiB is retried on a cut-down copy to separate cost from non-termination); Unicode lower-casing is "
-          "abstract in the model; clap's own exits (2 on usage errors) are observed, not modelled.",
+          "that exhausts 40 s / 4 GiB is retried on a cut-down copy to separate cost from non-termination); Unicode lower-casing is an "
+          "arbitrary function in the model; the regex contract (a match is an occurrence of one alternative) and two facts about "
+          "Rust `str` (a String found in a str ends on a character boundary; a continuation byte never follows an ASCII byte) are "
+          "explicit hypotheses; clap's own exits (2 on usage errors) are observed, not modelled.",
 }
-
 CHECKS["C06"] = {
   "text": "Theorems over all word lists, all neutral delimiter strings and all style-option sets about a Lean model of the one-line "
           "pipeline (build_styles_list, the scanner's VariantMap and its get, leftmost-first alternation over the keys ordered as "
@@ -410,4 +417,4 @@ CHECKS["C15"] = {
 }
 
 _W = "check built and passing before the latest repo fix commits; temporarily withdrawn while its Lean model is updated to the repaired code"
-PENDING.update({"C12": _W, "C17": _W, "C19": _W})
+PENDING.update({"C04": _W, "C07": _W, "C11": _W, "C13": _W, "C14": _W, "C19": _W})
